@@ -182,3 +182,41 @@ func c17RetryDecisionTable(c *Ctx, pp string) {
 	}
 	c.Check("C17.R12", funcKey(fn)+":retry-decision-table", fn.Pos(), len(wrong) == 0, fmt.Sprintf("%d (reason, retry_on, status readable) combinations evaluated", n), "the retry conditions differ from the configured ones ("+strings.Join(wrong, "; ")+")")
 }
+
+// c17RetryPolicyVerbatim (R13): the route's retry policy is the configured one.
+// NewRouteRuleImplBase copies v2.RetryPolicy into retryPolicyImpl; which of (per-try timeout, global timeout) wins is
+// decided per request in parseProxyTimeout, where the *effective* global timeout is known (it can come from the protocol
+// or from a request header and then differs from the route's). Clause: each field of retryPolicyImpl is stored from the
+// configuration field of the same name and nothing else - no phi with a constant, no adjusted value. A per-try timeout
+// zeroed at route-build time because it is not below the *route's* timeout is lost for every request whose own global
+// timeout is larger.
+func c17RetryPolicyVerbatim(c *Ctx) {
+	pkg := "pkg/router"
+	fn := c.F(pkg, "NewRouteRuleImplBase")
+	if fn == nil {
+		c.Unresolved("C17.R13", "NewRouteRuleImplBase")
+		return
+	}
+	want := map[string]string{"retryOn": "RetryOn", "retryTimeout": "RetryTimeout", "numRetries": "NumRetries", "statusCodes": "StatusCodes"}
+	n := 0
+	forEachInstr(fn, false, func(_ *ssa.Function, in ssa.Instruction) {
+		st, ok := in.(*ssa.Store)
+		if !ok {
+			return
+		}
+		t, fld, _, ok := fieldAddrInfo(st.Addr)
+		if !ok || !strings.HasSuffix(t, "retryPolicyImpl") {
+			return
+		}
+		src, tracked := want[fld]
+		if !tracked {
+			return
+		}
+		n++
+		_, f, _, isLoad := loadedField(stripConv(st.Val))
+		c.Check("C17.R13", funcKey(fn)+":retry-policy-verbatim:"+fld, st.Pos(), isLoad && f == src, "stored from RetryPolicy."+src+" as it is", "retryPolicyImpl."+fld+" is not the configured RetryPolicy."+src+" as it is (a value adjusted when the route is built): the retry policy applied to a request differs from the configured one - e.g. a per-try timeout dropped because it is not below the route's timeout is missing for requests whose own (protocol or header) global timeout is larger")
+	})
+	if n < 4 {
+		c.Unresolved("C17.R13", fmt.Sprintf("stores into retryPolicyImpl in NewRouteRuleImplBase (found %d)", n))
+	}
+}
